@@ -219,7 +219,7 @@ pub fn profile(prop: u8, thorough: bool) -> Profile {
         }
         17 => {
             p.big_w = 8;
-            p.ops = with(p.ops, &[("reserve", 14), ("shrink_to_fit", 7), ("clear", 1)]);
+            p.ops = with(p.ops, &[("reserve", 14), ("shrink_to_fit", 7), ("clear", 1), ("append", 5)]);
             p.max_ops = if thorough { 80 } else { 40 };
         }
         18 => {
@@ -227,7 +227,8 @@ pub fn profile(prop: u8, thorough: bool) -> Profile {
             p.abstract_only = true;
             p.size_w = [1, 1, 1, 1, 4, 3, 1, 0];
             p.max_big = 150;
-            p.ops = with(p.ops, &[("serde", 1), ("get", 3)]);
+            p.ops = with(p.ops, &[("serde", 1), ("deser_seq", 3), ("get", 3), ("append", 4)]);
+            p.big_w = 6;
         }
         _ => {}
     }
@@ -402,7 +403,9 @@ pub fn pairs(u: u32, dom: u8, max: usize) -> BoxedStrategy<Vec<Pair>> {
 }
 
 fn pair_len_bound(p: &Profile) -> usize {
-    if p.max_ops > 100 {
+    if p.big {
+        300
+    } else if p.max_ops > 100 {
         200
     } else {
         70
@@ -460,7 +463,9 @@ pub fn op_strategy(p: &Profile, kind: Kind, u: u32, dom: u8) -> BoxedStrategy<Op
                 .prop_map(|(comp, a, b)| Op::Adapt { which: ItKind::IterMut, comp, a, b })
                 .boxed(),
             "extend" => (pairs(u, dom, pl), hint(p.huge_hints)).prop_map(|(pairs, hint)| Op::Extend { pairs, hint }).boxed(),
-            "append" => (pairs(u, dom, pl), any::<bool>()).prop_map(|(pairs, swap_roles)| Op::Append { pairs, swap_roles }).boxed(),
+            "append" => (pairs(u, dom, pl), any::<bool>(), prop_oneof![3 => Just(false), 1 => Just(true)], prop_oneof![3 => Just(0u8), 1 => any::<u8>()])
+                .prop_map(|(pairs, swap_roles, mirror, cap)| Op::Append { pairs, swap_roles, mirror, cap })
+                .boxed(),
             "from_vec" => pairs(u, dom, 24).prop_map(|extra| Op::RebuildFromVec { extra }).boxed(),
             "from_iter" => (pairs(u, dom, 24), hint(p.huge_hints)).prop_map(|(extra, hint)| Op::RebuildFromIter { extra, hint }).boxed(),
             "convert" => Just(Op::ConvertRound).boxed(),
@@ -513,7 +518,13 @@ pub fn op_strategy(p: &Profile, kind: Kind, u: u32, dom: u8) -> BoxedStrategy<Op
     Union::new_weighted(v).boxed()
 }
 
-pub const ALL_COMPS: [Comp; 34] = [
+pub const ALL_COMPS: [Comp; 40] = [
+    Comp::BacksThenFold,
+    Comp::BacksThenCount,
+    Comp::BacksThenLast,
+    Comp::BacksThenForEach,
+    Comp::NextsThenRfold,
+    Comp::NextsThenLast,
     Comp::Rfold,
     Comp::FindThenRest,
     Comp::RfindThenRest,
@@ -552,7 +563,7 @@ pub const ALL_COMPS: [Comp; 34] = [
 
 pub fn ctor_strategy(p: &Profile, u: u32, dom: u8) -> BoxedStrategy<Ctor> {
     // (weight, lo, hi) size classes; the vector itself shrinks towards `lo` elements
-    let classes: Vec<(u32, usize, usize)> = if p.big { vec![(2, 50, 130), (1, 64, 260)] } else { vec![
+    let classes: Vec<(u32, usize, usize)> = if p.big { vec![(4, 50, 130), (2, 64, 260), (1, 513, 1100)] } else { vec![
         (p.size_w[0], 0, 0),
         (p.size_w[1], 0, 1),
         (p.size_w[2], 1, 2),
